@@ -420,6 +420,17 @@ class Ctx:
             allok = allok and good
         self.cov["axioms"] = axrep
         self.cov["lean_modules_audited"] = mods
+        if self.tier == "thorough" and allok:
+            # the toolchain's independent re-checker replays the compiled declarations of the property modules
+            rechecked = []
+            for m in [module] + [e for e in extra_targets if e.startswith("ZwVerif.")]:
+                r = run(["lake", "env", "leanchecker", m], cwd=LEAN)
+                if r.returncode != 0:
+                    allok = False
+                    self.proof_broken(m, "leanchecker rejects the compiled module", (r.stdout or "")[-3000:])
+                    break
+                rechecked.append(m)
+            self.cov["leanchecker_replayed"] = rechecked
         if bad:
             self.proof_broken(module, "forbidden token in proof sources: " + "; ".join(bad[:5]), "")
         elif not allok:
